@@ -535,29 +535,46 @@ type probeRes struct {
 	Bound    string `json:"bound"`
 }
 
-func probe(addr, target string, bound time.Duration) probeRes {
-	resp := apifix.Do(addr, &apifix.Req{Method: "GET", Target: target}, bound)
-	return probeRes{Target: target, Answered: resp.Fail == "", Wall: resp.Dur.Round(time.Millisecond).String(), Status: resp.Status, Bound: bound.String()}
+func probe(addr string, q *apifix.Req, bound time.Duration) probeRes {
+	resp := apifix.Do(addr, q, bound)
+	return probeRes{Target: q.Method + " " + trunc(q.Target, 80), Answered: resp.Fail == "", Wall: resp.Dur.Round(time.Millisecond).String(), Status: resp.Status, Bound: bound.String()}
 }
 
-// subsystem probes: one cheap read per component whose locks a handler may wait for
-var subsystemProbes = []struct{ name, target string }{
-	{"wallet", "/api/v1/wallets"},
-	{"storage", "/api/v2/data?type=client"},
-	{"visor", "/api/v1/blockchain/metadata"},
-	{"daemon", "/api/v1/network/connections"},
+type sprobe struct {
+	name string
+	q    *apifix.Req
 }
 
-func probeFor(route string) string {
+// subsystem probes: one cheap request per component whose locks a handler may wait for. The
+// write probe of the visor injects a transaction that fails verification: the verification runs
+// inside the database's write transaction (a stuck writer blocks it), and nothing is stored.
+func (cn *concNode) subsystemProbes() []sprobe {
+	get := func(t string) *apifix.Req { return &apifix.Req{Method: "GET", Target: t} }
+	ps := []sprobe{{"wallet", get("/api/v1/wallets")}, {"storage", get("/api/v2/data?type=client")}, {"visor", get("/api/v1/blockchain/metadata")}, {"daemon", get("/api/v1/network/connections")}}
+	enc := cn.h.worlds[cn.j.World].Encoded
+	for _, k := range []string{"unknown-input", "bad-signature", "unsigned", "spends-spent", "no-fee"} {
+		if enc[k] != "" {
+			b, _ := json.Marshal(map[string]interface{}{"rawtx": enc[k], "no_broadcast": true})
+			ps = append(ps, sprobe{"visor-write", &apifix.Req{Method: "POST", Target: "/api/v1/injectTransaction", Headers: [][2]string{{"Content-Type", "application/json"}}, Body: string(b)}})
+			break
+		}
+	}
+	return ps
+}
+
+// probesFor: the components a stuck route depends on
+func probesFor(route string) []string {
 	switch {
 	case strings.Contains(route, "/wallet"):
-		return "wallet"
+		return []string{"wallet", "visor", "visor-write"}
 	case route == "/api/v2/data":
-		return "storage"
+		return []string{"storage"}
 	case strings.Contains(route, "/network/"):
-		return "daemon"
+		return []string{"daemon"}
+	case route == "/api/v1/injectTransaction" || route == "/api/v1/resendUnconfirmedTxns":
+		return []string{"visor", "visor-write", "daemon"}
 	}
-	return "visor"
+	return []string{"visor", "visor-write"}
 }
 
 // stuckProcedure runs when requests have been outstanding for longer than the watchdog. The
@@ -572,12 +589,13 @@ func (cn *concNode) stuckProcedure(rule string, wd, fired time.Duration) {
 	cn.stop.Store(true)
 	r.Count("conc.watchdog_fired", 1)
 	// (b) probes first: SIGQUIT ends the node
-	free := probe(cn.n.addr, "/api/v1/version", lockFreeBound)
-	res := make([]probeRes, len(subsystemProbes))
+	free := probe(cn.n.addr, &apifix.Req{Method: "GET", Target: "/api/v1/version"}, lockFreeBound)
+	sps := cn.subsystemProbes()
+	res := make([]probeRes, len(sps))
 	var wg sync.WaitGroup
-	for i, p := range subsystemProbes {
+	for i, p := range sps {
 		wg.Add(1)
-		go func(i int, target string) { defer wg.Done(); res[i] = probe(cn.n.addr, target, wd) }(i, p.target)
+		go func(i int, q *apifix.Req) { defer wg.Done(); res[i] = probe(cn.n.addr, q, wd) }(i, p.q)
 	}
 	wg.Wait()
 	now := time.Now()
@@ -593,7 +611,9 @@ func (cn *concNode) stuckProcedure(rule string, wd, fired time.Duration) {
 	routeSet, needs := map[string]bool{}, map[string]bool{}
 	for _, o := range stuck {
 		routeSet[o.Q.Method+" "+o.route] = true
-		needs[probeFor(o.route)] = true
+		for _, p := range probesFor(o.route) {
+			needs[p] = true
+		}
 	}
 	var routes []string
 	for k := range routeSet {
@@ -602,7 +622,7 @@ func (cn *concNode) stuckProcedure(rule string, wd, fired time.Duration) {
 	sort.Strings(routes)
 	subsystemSilent := false
 	probes := map[string]probeRes{"lock-free": free}
-	for i, p := range subsystemProbes {
+	for i, p := range sps {
 		probes[p.name] = res[i]
 		if needs[p.name] && !res[i].Answered {
 			subsystemSilent = true
